@@ -77,7 +77,7 @@ let handle (toks : string list) : string =
      | Ok n -> "ok " ^ render n
      | e -> fail_name e)
   | ["compact"; h] -> hex_of_bytes (hex_to_compact (bytes_of_hex h))
-  | ["uncompact"; h] -> (match compact_to_hex (bytes_of_hex h) with Ok b -> "ok " ^ hex_of_bytes b | e -> fail_name e)
+  | ["uncompact"; h] -> "ok " ^ hex_of_bytes (compact_to_hex (bytes_of_hex h))
   | ["keyhex"; h] -> hex_of_bytes (keybytes_to_hex (bytes_of_hex h))
   | _ -> "driver-error unknown-command"
 
